@@ -3,6 +3,7 @@ mod ctl;
 mod sys;
 mod j;
 mod page;
+mod serial;
 mod util;
 mod vsign;
 
@@ -33,6 +34,10 @@ fn main() {
         ("record", "C19") => page::record_c19(&a),
         ("replay", "C06") => { page::replay_c06(&a.rest[0]); 0 }
         ("replay", "C07") => { page::replay_c07(&a.rest[0]); 0 }
+        ("record", "C15") => serial::record_c15(&a),
+        ("record", "C16") => serial::record_c16(&a),
+        ("record", "C18") => serial::record_c18(&a),
+        ("record", "C20") => serial::record_c20(&a),
         ("record", "C08") => sys::record_c08(&a),
         ("record", "C09") => ctl::record_c09(&a),
         ("record", "C10") => ctl::record_c10(&a),
